@@ -73,11 +73,20 @@ def make_case(ctx, i, strings=None):
               "extensions": {"nitrogql": {"generate": {"schemaOutput": "./gen/schema.d.ts", "resolversOutput": "./gen/resolvers.d.ts", "type": tcfg}}}}
     if model_plugin:
         config["extensions"]["nitrogql"]["plugins"] = ["nitrogql:model-plugin"]
+    # emitSchemaRuntime: the schema module is then a .ts file that also exports one runtime object per enum type
+    runtime = r.chance(1, 3)
+    gen = config["extensions"]["nitrogql"]["generate"]
+    if runtime:
+        gen["schemaOutput"] = "./gen/schema.ts"
+        gen["emitSchemaRuntime"] = True
+    elif r.chance(1, 4):
+        gen["emitSchemaRuntime"] = False
     files = TG.split_files(m, r, 1 + r.below(3))
     for f in files:
         f["path"] = f["path"][1:]       # relative to the project root: schema/s0.graphql
     return {"id": "g%d" % i, "schemaFiles": files, "opFiles": [], "configText": json.dumps(config), "scalarTexts": scalar_texts,
-            "cfg": {"allowUndefined": allow, "modelPlugin": model_plugin}, "modelTypeTexts": model_types, "want": {"resolvers": True}}
+            "cfg": {"allowUndefined": allow, "modelPlugin": model_plugin, "runtime": runtime}, "modelTypeTexts": model_types, "want": {"resolvers": True},
+            "schemaOutRel": "gen/schema.ts" if runtime else "gen/schema.d.ts"}
 
 
 def run(ctx, res):
@@ -161,11 +170,33 @@ def selftest(ctx):
     if corrupt_first(ns_body(d, "__ResolverOutput"), lambda t: t["k"] == "obj" and any(f["key"] == "__typename" for f in t["fs"]),
                      lambda t: [f for f in t["fs"] if f["key"] == "__typename"][0]["t"].__setitem__("s", "Elsewhere")):
         muts.append(d)
+    # a run with emitSchemaRuntime: one key of an enum's runtime object lost / `as const` lost; and a run without it that gains a const
+    rt = None
+    for k in range(1, 200):
+        c2 = make_case(ctx, k)
+        if c2["cfg"]["runtime"] and any(d["k"] == "enum" and len(d.get("values", [])) > 1 for f in c2["schemaFiles"] for d in f["items"]):
+            vlib.write_ndjson(ctx.path("cases2.ndjson"), [c2])
+            vlib.run_harness(["typegen", vlib.CLI_BIN, ctx.path("cases2.ndjson"), ctx.path("events2.ndjson"), ctx.path("proj2"), "1"])
+            rt = vlib.read_ndjson(ctx.path("events2.ndjson"))[0]
+            break
+    if rt is not None:
+        consts = [st for st in rt["schemaTs"]["stmts"] if st["k"] == "const"]
+        if consts:
+            x = copy.deepcopy(rt)
+            cs = [st for st in x["schemaTs"]["stmts"] if st["k"] == "const" and len(st["obj"]["props"]) > 1][0]
+            cs["obj"]["props"].pop()
+            muts.append(x)
+            y = copy.deepcopy(rt)
+            [st for st in y["schemaTs"]["stmts"] if st["k"] == "const"][0]["obj"]["asConst"] = False
+            muts.append(y)
+            z = copy.deepcopy(rt)
+            z["cfg"]["runtime"] = False
+            muts.append(z)
     for i, m in enumerate(muts):
         m["id"] = "mut%d" % i
-    o = vlib.validate_trace("Trace_C10", "Trace_C10.cfg", muts, workdir=ctx.work, nshards=1)
+    o = vlib.validate_trace("Trace_C10", "Trace_C10.cfg", muts + ([rt] if rt else []), workdir=ctx.work, nshards=1)
     rejected = {i["id"] for i in o.items}
-    ok = len(muts) == 3 and rejected == {"mut0", "mut1", "mut2"}
+    ok = len(muts) == 6 and rejected == {"mut%d" % i for i in range(6)}
     print("SELFTEST C10: %d corrupted ASTs, rejected %s -> %s" % (len(muts), sorted(rejected), "ok" if ok else "FAILED"))
     ctx.cleanup()
     return 0 if ok else 2
